@@ -585,31 +585,9 @@ class PyDev:
         return f"mem={hx(self.mem)} sb={hx(self.sb)} ncmd={self.ncmd} img={hx(self.image)} ks={hx(self.ks)} fuses={fuses} keys={keys}"
 
     def feed(self, w):
-        if self.hid:
-            if len(w) < 4:
-                return
-            rid, _, ln = struct.unpack_from("<2BH", w)
-            p = w[4:4 + ln]
-            if len(p) < ln:
-                return
-            if rid == 1:
-                self.command(p)
-            elif rid == 2:
-                self.data(p)
-            return
-        if w in (b"\x5a\xa1", b"\x5a\xa6"):
-            return
-        if len(w) < 6 or w[0] != 0x5A:
-            return
-        t, ln, crc = w[1], w[2] | w[3] << 8, w[4] | w[5] << 8
-        p = w[6:]
-        if len(p) != ln or crc16(w[:4] + p) != crc:
-            self.bad_packets += 1
-            return
-        if t == 0xA4:
-            self.command(p)
-        elif t == 0xA5:
-            self.data(p)
+        """apply one host write (effects only).  Same state machine as the live device (`respond`): in particular a serial device that
+        still owes data / the final response of a command (paced by the host's ACKs) does not take stray data frames as image data."""
+        self.respond(w)
 
     def command(self, p):
         if len(p) < 4 or len(p) != 4 + 4 * p[3]:
